@@ -212,6 +212,15 @@ def check_arnoldi(A, v, m, out, cls, K, normA, horizon=None):
     return fails
 
 
+def full_space_judgeable(A, v, m, normA):
+    n = len(v)
+    if m < n or normA <= 0:
+        return False
+    betas, _, _ = krylov_reference(A, v, n)
+    thr = 10 * 100 * n * np.finfo(float).eps
+    return len(betas) == n and all(b * normA >= thr for b in betas[:n - 1])
+
+
 def check_eigh_krylov(A, v, m, numeig, out, cls, K, normA, Q, kret=None, horizon=None):
     """
     A Hermitian. out = (w, u_ritz).  kret = number of Lanczos vectors the implementation produced.
@@ -250,6 +259,15 @@ def check_eigh_krylov(A, v, m, numeig, out, cls, K, normA, Q, kret=None, horizon
             if abs(r - w[i]) > TOL * sc:
                 fails.append(('ritz_rayleigh', f'i={i} u^H A u={r!r} theta={w[i]!r}'))
                 break
+    if cls == 'grey' and m >= n and normA > 0:
+        # Some reference beta lies between the two class thresholds, so the dimension of the Krylov space is not decided.
+        # The routine's own (documented, absolute) breakdown rule is beta < 100 n eps; when every reference beta is at
+        # least ten times that, the routine cannot stop early, and with m >= n it produces n orthonormal vectors:
+        # A V = V T up to rounding with V unitary, so the lowest Ritz value is the smallest eigenvalue of A.
+        if full_space_judgeable(A, v, m, normA):
+            betas, _, _ = krylov_reference(A, v, n)
+            if abs(th0 - evals[0]) > TOL * sc:
+                fails.append(('ritz_exact_full_space', f'theta0={th0!r} lambda_min={evals[0]!r} (n={n}, m={m}, smallest beta {min(betas[:n - 1]) * normA if n > 1 else 0:.3e})'))
     if cls in ('exhausted', 'regular_full') and not continued:
         # smallest eigenvalue reachable from v: smallest eigenvalue of A restricted to the cyclic subspace
         Ar = Q.conj().T @ (A @ Q)
